@@ -248,3 +248,75 @@ m('serve-compressed-file-directly', 'R08e', DISK,
 						rc = f
 					} else if zstd {
 						rc, err = casblob.GetZstdReadCloser(c.zstd, f, size, offset)''')
+# ---- rules from the second seeded round
+m('uar-inlined-put-skipped-when-present', 'R01i', AC,
+  '''			err = s.cache.Put(ctx, cache.CAS, f.Digest.Hash,
+				f.Digest.SizeBytes, bytes.NewReader(f.Contents))''',
+  '''			if found, _ := s.cache.Contains(ctx, cache.CAS, f.Digest.Hash, f.Digest.SizeBytes); found {
+				continue
+			}
+
+			err = s.cache.Put(ctx, cache.CAS, f.Digest.Hash,
+				f.Digest.SizeBytes, bytes.NewReader(f.Contents))''')
+m('uar-stderr-not-stored', 'R01i', AC,
+  '''		err = s.cache.Put(ctx, cache.CAS, hash, sizeBytes,
+			bytes.NewReader(req.ActionResult.StderrRaw))''',
+  '''		if sizeBytes > s.maxCasBlobSizeBytes {
+			hash = ""
+		} else {
+			err = s.cache.Put(ctx, cache.CAS, hash, sizeBytes,
+				bytes.NewReader(req.ActionResult.StderrRaw))
+		}''')
+m('path-from-request-size', 'R04f', DISK,
+  '					blobPath = path.Join(c.dir, c.FileLocation(kind, item.legacy, hash, item.size, item.random))',
+  '					blobPath = path.Join(c.dir, c.FileLocation(kind, item.legacy, hash, size, item.random))')
+m('failfast-flag-not-reread', 'R06f', FM,
+  '''			if cancelledDueToFailFast.Load() {
+				return errMissingBlob
+			}
+		}
+	}
+
+	return nil''',
+  '''		}
+	}
+
+	return nil''')
+m('empty-ac-entry-is-hit', 'R06g', DISK,
+  '	if rc == nil || sizeBytes <= 0 {\n		return nil, nil, nil // aka "not found"',
+  '	if rc == nil || sizeBytes < 0 {\n		return nil, nil, nil // aka "not found"')
+m('worker-no-done-on-cancel', 'R14i', FM,
+  '''				c.accessLogger.Printf("GRPC CAS HEAD %s CANCELLED", (*req.digest).Hash)
+				req.wg.Done()
+				continue''',
+  '''				c.accessLogger.Printf("GRPC CAS HEAD %s CANCELLED", (*req.digest).Hash)
+				continue''')
+m('s3-prefix-concatenated', 'R20f', S3,
+  '	return path.Join(prefix, baseKey)\n}',
+  '	return prefix + "/" + baseKey\n}')
+m('lostfound-wrong-level', 'R09e', LOAD,
+  '			if name2 == lostAndFound {',
+  '			if name == lostAndFound {')
+m('worker-metadata-always-replaced', 'R11e', AC,
+  '''	if ar.ExecutionMetadata == nil {
+		ar.ExecutionMetadata = &pb.ExecutedActionMetadata{}
+	} else if ar.ExecutionMetadata.Worker != "" {
+		return
+	}
+
+	p, ok := peer.FromContext(ctx)''',
+  '''	if ar.ExecutionMetadata.GetWorker() != "" {
+		return
+	}
+	ar.ExecutionMetadata = &pb.ExecutedActionMetadata{}
+
+	p, ok := peer.FromContext(ctx)''')
+m('fm-batch-loop-break', 'R10c', FM,
+  '''		numMissing := c.findMissingLocalCAS(chunk)
+		if numMissing == 0 {
+			continue
+		}''',
+  '''		numMissing := c.findMissingLocalCAS(chunk)
+		if numMissing == 0 {
+			break
+		}''')
